@@ -253,11 +253,14 @@ def coq_bad_indices(prop, name, imports, ok_fun, case_type, items, shard=400, pr
         return idx, out
     bad, errors = [], []
     with ThreadPoolExecutor(NCPU) as ex:
-        for k, (idx, out) in enumerate(ex.map(run, paths)):
-            if idx is None:
-                errors.append("shard %d: %s" % (k, out[-1500:]))
-            else:
-                bad.extend(k * shard + i for i in idx)
+        results = list(ex.map(run, paths))
+    for k, (idx, out) in enumerate(results):
+        if idx is None:      # a coqc killed under memory pressure leaves no output: one more try, alone
+            idx, out = run(paths[k])
+        if idx is None:
+            errors.append("shard %d: %s" % (k, out[-1500:]))
+        else:
+            bad.extend(k * shard + i for i in idx)
     for junk in glob.glob(os.path.join(d, "*.vo*")) + glob.glob(os.path.join(d, "*.glob")) + glob.glob(os.path.join(d, ".*.aux")):
         try:
             os.remove(junk)
